@@ -35,6 +35,52 @@ From Coq Require Import NArith ZArith List Bool.
 From HV Require Import Base.Bytes Base.Rlp TxCodec.EthTxModel.
 Import ListNotations.
 
+(** * histories of an arbitrary step function
+
+    [stepE st e] = new state and, if the event is accepted, the accounts on whose
+    behalf its signed messages [msgsE e] execute, in message order. *)
+Section History.
+  Context {A E M : Type}.
+  Variable stepE : (A -> N) -> E -> (A -> N) * option (list A).
+  Variable msgsE : E -> list M.
+  Variable nonceM : M -> N.
+
+  Fixpoint outcomes_gen (st : A -> N) (h : list E) : list (option (list A)) :=
+    match h with
+    | [] => []
+    | e :: r => snd (stepE st e) :: outcomes_gen (fst (stepE st e)) r
+    end.
+  Fixpoint final_gen (st : A -> N) (h : list E) : A -> N :=
+    match h with
+    | [] => st
+    | e :: r => final_gen (fst (stepE st e)) r
+    end.
+  (** "signed message number [k] of event number [j] of history [h] (started in
+      [st]) was executed on behalf of account [a] with nonce [n]" *)
+  Definition executed_gen (st : A -> N) (h : list E) (j k : nat) (a : A) (n : N) : Prop :=
+    exists e l m, nth_error h j = Some e /\ nth_error (outcomes_gen st h) j = Some (Some l) /\
+                  nth_error (msgsE e) k = Some m /\ nth_error l k = Some a /\ nonceM m = n.
+End History.
+
+(** * contract creations: what the EXECUTION of a message does to the sender's nonce
+
+    x/evm/keeper/state_transition.go ApplyMessageWithConfig, msg.To() == nil:
+    "take over the nonce management from evm": SetNonce(sender, msg.Nonce()),
+    evm.Create, SetNonce(sender, nonceAfter).  ApplyTransaction keeps these writes
+    only if the EVM execution did not fail.  [creates]: the message is a contract
+    creation; [create_ok]: its EVM execution succeeded.  The rule maps (nonce of
+    the sender when the message starts to execute, nonce of the message) to the
+    nonce written afterwards:
+    - as the code has it now: nonceAfter = max(nonceBefore, msg.Nonce() + 1);
+    - as it was before commit f9ff121: msg.Nonce() + 1, which is BELOW what the
+      ante handler had stored when further messages of the sender follow in the
+      same Cosmos transaction. *)
+Record cflag := mk_cflag { creates : bool; create_ok : bool }.
+Definition sets_nonce (f : cflag) : bool := creates f && create_ok f.
+Definition no_creation : cflag := mk_cflag false false.
+Definition nonce_after_creation (before m : N) : N := N.max before (m + 1).
+Definition nonce_after_creation_old (before m : N) : N := (m + 1)%N.
+
 (** * the generic machine *)
 Section Machine.
   Context {A T : Type}.
@@ -183,6 +229,55 @@ Section Machine.
   Definition executed_any (st : A -> N) (h : list submission) (j k : nat) (a : A) (n : N) : Prop :=
     exists x l m, nth_error h j = Some x /\ nth_error (outcomes_any st h) j = Some (Some l) /\
                   nth_error (msgs_of x) k = Some m /\ nth_error l k = Some a /\ nonce_of m = n.
+
+  (** ** Ethereum-route transactions whose messages may be contract creations
+
+      The ante handler is [step_tx] (both loops run before the first message
+      executes: the sequence of every sender has been advanced by the number of
+      its messages).  Then the messages execute in order; a call does not touch
+      the sender's nonce; a successful creation with nonce [m] writes
+      [rule (current nonce) m]. *)
+  Variable rule : N -> N -> N.
+  Fixpoint exec_all (st : A -> N) (l : list (A * N * cflag)) : A -> N :=
+    match l with
+    | [] => st
+    | (a, m, f) :: r => exec_all (if sets_nonce f then upd st a (rule (st a) m) else st) r
+    end.
+  Definition step_txc (st : A -> N) (x : list (T * cflag) * bool) : (A -> N) * option (list A) :=
+    let '(msc, other_ok) := x in
+    match step_tx st (map fst msc, other_ok) with
+    | (st', Some l) => (exec_all st' (combine (combine l (map nonce_of (map fst msc))) (map snd msc)), Some l)
+    | (st', None) => (st', None)
+    end.
+
+  (** ** events: everything that can happen to the sequences
+
+      - [ESub]: a submission as above;
+      - [ECreating]: an Ethereum-route transaction with per-message creation flags;
+      - [EAccountOp]: an operation on the TYPE of account [target] (conversion into
+        a vesting account by a third party, a further vesting grant merged into
+        it, conversion back) -- itself a transaction with its own signed units
+        (the funder's signature, [step_tx]); [target] and the operation [o] do
+        not enter the rule: the operation leaves the target's sequence alone. *)
+  Context {O : Type}.
+  Inductive event :=
+  | ESub (x : submission)
+  | ECreating (ms : list (T * cflag)) (other_ok : bool)
+  | EAccountOp (o : O) (target : A) (signed : list T) (other_ok : bool).
+
+  Definition msgs_of_event (e : event) : list T :=
+    match e with ESub x => msgs_of x | ECreating ms _ => map fst ms | EAccountOp _ _ s _ => s end.
+
+  Definition step_event (st : A -> N) (e : event) : (A -> N) * option (list A) :=
+    match e with
+    | ESub x => step_any st x
+    | ECreating ms ok => step_txc st (ms, ok)
+    | EAccountOp _ _ s ok => step_tx st (s, ok)
+    end.
+
+  Definition outcomes_event := outcomes_gen step_event.
+  Definition final_event := final_gen step_event.
+  Definition executed_event := executed_gen step_event msgs_of_event nonce_of.
 End Machine.
 
 (** * the Ethereum route *)
@@ -219,6 +314,18 @@ Section EthRoute.
   Definition outcomes_eth_any {W} := outcomes_any (W:=W) (list_eq_dec N.eq_dec) auth_eth tx_nonce.
   Definition final_eth_any {W} := final_any (W:=W) (list_eq_dec N.eq_dec) auth_eth tx_nonce.
   Definition executed_eth_any {W} := executed_any (W:=W) (list_eq_dec N.eq_dec) auth_eth tx_nonce.
+
+  (** transactions with contract creations, and histories of events, under a
+      given rule for the nonce a successful creation writes *)
+  Definition step_eth_txc (rule : N -> N -> N) := step_txc (list_eq_dec N.eq_dec) auth_eth tx_nonce rule.
+  Definition outcomes_eth_txc (rule : N -> N -> N) := outcomes_gen (step_eth_txc rule).
+  Definition final_eth_txc (rule : N -> N -> N) := final_gen (step_eth_txc rule).
+  Definition executed_eth_txc (rule : N -> N -> N) :=
+    executed_gen (step_eth_txc rule) (fun x : list (eth_tx * cflag) * bool => map fst (fst x)) tx_nonce.
+  Definition step_eth_event {W O} (rule : N -> N -> N) := step_event (W:=W) (O:=O) (list_eq_dec N.eq_dec) auth_eth tx_nonce rule.
+  Definition outcomes_eth_event {W O} (rule : N -> N -> N) := outcomes_event (W:=W) (O:=O) (list_eq_dec N.eq_dec) auth_eth tx_nonce rule.
+  Definition final_eth_event {W O} (rule : N -> N -> N) := final_event (W:=W) (O:=O) (list_eq_dec N.eq_dec) auth_eth tx_nonce rule.
+  Definition executed_eth_event {W O} (rule : N -> N -> N) := executed_event (W:=W) (O:=O) (list_eq_dec N.eq_dec) auth_eth tx_nonce rule.
 End EthRoute.
 
 (** signing, for the positive direction: [sign k h] gives (r, s, recovery id) *)
@@ -348,6 +455,16 @@ Definition step_sub_tx (nd : node) := step_tx N.eq_dec (auth_sub nd) sub_nonce.
 Record wrap := mk_wrap { w_outer : option sub; w_plain_before : nat; w_depth : nat; w_granted : bool }.
 Definition step_sub_any (nd : node) := step_any (W:=wrap) N.eq_dec (auth_sub nd) sub_nonce.
 
+(** the account-type operations the correspondence run performs between
+    submissions (x/vesting): MsgConvertIntoVestingAccount by a third party against
+    an existing account, the same against an account that already is a vesting
+    account (the schedules are merged), MsgConvertVestingAccount back to a plain
+    account; and the events as the run records them, with the rule of the code as
+    it is now *)
+Inductive account_op := OpConvertIntoVesting | OpMergeVesting | OpConvertBack.
+Definition step_sub_event (nd : node) :=
+  step_event (W:=wrap) (O:=account_op) N.eq_dec (auth_sub nd) sub_nonce nonce_after_creation.
+
 Fixpoint list_N_eqb (x y : list N) : bool :=
   match x, y with
   | [], [] => true
@@ -356,19 +473,21 @@ Fixpoint list_N_eqb (x y : list N) : bool :=
   end.
 
 (** a recorded history: initial sequences of the interned accounts, then for
-    every submitted transaction its signed units ([Direct]) or the wrapper and
-    the signed Ethereum messages it carries ([Wrapped]), the verdict of the
+    every event -- a submitted transaction with its signed units ([ESub (Direct
+    ..)]), a wrapper and the signed Ethereum messages it carries ([ESub (Wrapped
+    ..)]), an Ethereum-route transaction with contract creations and what became
+    of them ([ECreating]), an account-type operation ([EAccountOp]) --, the verdict of the
     unmodelled checks and what the implementation did (the executing accounts in message
     order, if accepted) together with the sequences of all interned accounts
     afterwards *)
 Definition init_state (l : list (N * N)) : N -> N := lookup l.
 
 Fixpoint check_from (nd : node) (na : nat) (i : nat) (st : N -> N)
-         (h : list (@submission sub wrap * option (list N) * list N)) : option nat :=
+         (h : list (@event N sub wrap account_op * option (list N) * list N)) : option nat :=
   match h with
   | [] => None
   | (x, who, seqs) :: r =>
-      let '(st', o) := step_sub_any nd st x in
+      let '(st', o) := step_sub_event nd st x in
       let same_who := match o, who with
                       | Some a, Some b => list_N_eqb a b | None, None => true | _, _ => false end in
       let same_seqs := forallb (fun p => N.eqb (st' (N.of_nat (fst p))) (snd p)) (combine (seq 0 na) seqs) in
@@ -377,7 +496,7 @@ Fixpoint check_from (nd : node) (na : nat) (i : nat) (st : N -> N)
 
 Record hist := mk_hist {
   h_node : node; h_naccounts : nat; h_init : list (N * N);
-  h_steps : list (@submission sub wrap * option (list N) * list N) }.
+  h_steps : list (@event N sub wrap account_op * option (list N) * list N) }.
 
 Definition check_case (c : hist) : bool :=
   match check_from (h_node c) (h_naccounts c) 0 (init_state (h_init c)) (h_steps c) with None => true | Some _ => false end.
